@@ -47,10 +47,23 @@ Print Assumptions C15_same_generic_partial.
 
 (* the side condition is satisfiable, with no hypothesis left: source = a driver that reads back what
    was written, target = the cbor-shaped driver of C01 (non-negative integers come back unsigned, zero
-   time as nil, times to the microsecond); and source = target = the identity driver *)
-Theorem C15_keeps_satisfiable : keeps id_wire cb_wire /\ keeps id_wire id_wire.
-Proof. exact (conj keeps_id_cb keeps_id_id). Qed.
+   time as nil, times to the microsecond); source = target = the identity driver; source = target = the
+   cbor-shaped driver (the tree really differs from what was written) *)
+Theorem C15_keeps_satisfiable : keeps id_wire cb_wire /\ keeps id_wire id_wire /\ keeps cb_wire cb_wire.
+Proof. exact (conj keeps_id_cb (conj keeps_id_id keeps_cb_cb)). Qed.
 Print Assumptions C15_keeps_satisfiable.
+
+(* hence, with no hypothesis on the drivers: the three-step transcoding through the cbor-shaped driver
+   (G = F): Decode_F(Encode_F(tree of Decode_F(Encode_F(v)))) into t is v up to cbor's documented losses
+   applied twice *)
+Theorem C15_cbwire_same : forall (O O' : gopts) (pi : order) (t : ty) (v : gv),
+  order_ok pi -> wt t v = true -> supported t = true ->
+  (Z.of_nat (depth (to_item O pi v)) < maxdepth O)%Z ->
+  of_item (compose_wire cb_wire cb_wire) O 0 t (cb_wn (reenc O' (cb_wn (to_item O pi v))))
+    = Ok (norm (compose_wire cb_wire cb_wire) O (arrange O pi v))
+  /\ veq (norm (compose_wire cb_wire cb_wire) O (arrange O pi v)) (norm (compose_wire cb_wire cb_wire) O v).
+Proof. exact cbwire_same. Qed.
+Print Assumptions C15_cbwire_same.
 
 (* ---- C15_nums: the integer a leaf denotes is the integer in the tree; sign / SignedInteger decide
    int64 vs uint64; floats are float64 in the tree ---- *)
